@@ -46,6 +46,7 @@ func init() {
 			{ID: "R01x", Floor: 1, Doc: "a resumed store finds every block that is in the file: the rescan indexes every section it passes (= R12c)", Run: ruleR12c},
 			{ID: "R01y", Floor: 3, Doc: "headers and sections are read completely also from readers that deliver in pieces (= R02q)", Run: ruleR02q},
 			{ID: "R01z", Floor: 1, Doc: "the readers that load the embedded index find it where the header says (Header.IndexOffset), index padding included (= R10d)", Run: ruleR10d},
+			{ID: "R01C", Floor: 1, Doc: "a reader nested in another is anchored at the parent's start, not at its current position (= R07p)", Run: ruleR07p},
 			{ID: "R01A", Floor: 1, Doc: "Reader.Roots returns the decoded root list on every call (= R07m)", Run: ruleR07m},
 		},
 	})
@@ -154,9 +155,14 @@ func lenSumPhi(fn *ssa.Function, d *ssa.Parameter) *ssa.Phi {
 			return
 		}
 		found = phi
+		allLenSums[phi] = true
 	})
 	return found
 }
+
+// allLenSums: every accumulator lenSumPhi has recognised (a function may hold the loop twice after
+// two helpers that both add up the parts were inlined back: the sums are the same number).
+var allLenSums = map[*ssa.Phi]bool{}
 
 // partsSum returns the value in fn that is S = sum of len(part) over the variadic
 // parameter d: the accumulator phi of an in-line loop, or the result of a
@@ -205,6 +211,9 @@ func ruleR01b(c *Ctx, r *Report) {
 					if canon(v) == sum {
 						return "S"
 					}
+					if ph, ok := canon(v).(*ssa.Phi); ok && allLenSums[ph] && ph.Parent() == fn {
+						return "S"
+					}
 					return ""
 				}}
 				for _, ret := range returnsOf(fn) {
@@ -236,12 +245,19 @@ func ruleR01b(c *Ctx, r *Report) {
 				bad = fmt.Sprintf("expected the prefix write and the per-part write, found %d writes", len(writes))
 			default:
 				// first write: buf[:n], n = PutUvarint(buf, S)
-				sl, ok := writes[0].Call.Args[0].(*ssa.Slice)
+				sl, ok := canon(writes[0].Call.Args[0]).(*ssa.Slice)
 				if !ok || sl.High == nil {
 					bad = "the first write is not buf[:n]"
 				} else {
 					pc, _ := callOf(canon(sl.High))
-					if pc == nil || calleeFunc(pc.Common()) == nil || calleeFunc(pc.Common()).Name() != "PutUvarint" || canon(pc.Call.Args[1]) != sum || !sameValue(pc.Call.Args[0], sl.X) && !sameSliceBase(pc.Call.Args[0], sl.X) {
+					isSum := func(v ssa.Value) bool {
+						if canon(v) == sum {
+							return true
+						}
+						ph, ok := canon(v).(*ssa.Phi)
+						return ok && allLenSums[ph] && ph.Parent() == fn
+					}
+					if pc == nil || calleeFunc(pc.Common()) == nil || calleeFunc(pc.Common()).Name() != "PutUvarint" || !isSum(pc.Call.Args[1]) || !sameValue(pc.Call.Args[0], sl.X) && !sameSliceBase(pc.Call.Args[0], sl.X) {
 						bad = "the length prefix is not the uvarint of S (sum of the part lengths)"
 					}
 				}
